@@ -291,11 +291,14 @@ class kMinPathErrorCycles(walkmodel.AbstractWalkModelDiGraph):
         
         # We will encode that edge_vars[(u,v,i)] * self.path_weights_vars[(i)] = self.pi_vars[(u,v,i)],
         # assuming self.w_max is a bound for self.path_weights_vars[(i)]
+        # pi = x * weight and gamma = x * slack: a walk may traverse an edge up to edge_upper_bounds times,
+        # so the products can reach edge_upper_bounds * w_max
+        product_ubs = [float(self.w_max * max(1, self.edge_upper_bounds[(u, v)])) for (u, v, i) in self.edge_indexes]
         self.pi_vars = self.solver.add_variables(
             self.edge_indexes,
             name_prefix="pi",
             lb=0,
-            ub=self.w_max,
+            ub=product_ubs,
             var_type="integer" if self.weight_type == int else "continuous",
         )
         
@@ -314,7 +317,7 @@ class kMinPathErrorCycles(walkmodel.AbstractWalkModelDiGraph):
             self.edge_indexes,
             name_prefix="gamma",
             lb=0,
-            ub=self.w_max,
+            ub=product_ubs,
             var_type="continuous",
         )
                 
@@ -347,7 +350,8 @@ class kMinPathErrorCycles(walkmodel.AbstractWalkModelDiGraph):
                     continuous_var=self.path_weights_vars[(i)],
                     product_var=self.pi_vars[(u, v, i)],
                     lb=0,
-                    ub=self.w_max,
+                    # the helper derives the number of bits of the traversal count from ub
+                    ub=max(self.w_max, self.edge_upper_bounds[(u, v)]),
                     name=f"10_u={u}_v={v}_i={i}",
                 )
 
@@ -370,7 +374,8 @@ class kMinPathErrorCycles(walkmodel.AbstractWalkModelDiGraph):
                         continuous_var=self.path_slacks_vars[i],
                         product_var=self.gamma_vars[(u, v, i)],
                         lb=0,
-                        ub=self.w_max,
+                        # the helper derives the number of bits of the traversal count from ub
+                        ub=max(self.w_max, self.edge_upper_bounds[(u, v)]),
                         name=f"12_u={u}_v={v}_i={i}",
                     )
 
